@@ -31,12 +31,15 @@ func (r *rng) bytes(n int) []byte {
 	return b
 }
 func (r *rng) chance(num, den int) bool { return r.intn(den) < num }
-func pick[T any](r *rng, xs []T) T     { return xs[r.intn(len(xs))] }
+func pick[T any](r *rng, xs []T) T      { return xs[r.intn(len(xs))] }
 
 // ---- case-line encoding ----
 func hx(b []byte) string  { return "x" + hex.EncodeToString(b) }
 func hxs(s string) string { return "x" + hex.EncodeToString([]byte(s)) }
 func unhx(s string) []byte {
+	if s == "X" { // a nil slice (the model reads it as empty)
+		return nil
+	}
 	if !strings.HasPrefix(s, "x") {
 		panic("bad hex field " + s)
 	}
